@@ -132,6 +132,11 @@ def run(chk, tier, seed):
     for toks, k in ((['!(', '?(', ')', 'a', '|'], 6), (['[', ']', '(?#)', '!', 'a', '-'], 5), (['*(', '+(', '@(', ')', '*', '/'], 5 if tier == 'quick' else 6)):
         for n in range(1, k + 1):
             strings += [''.join(t) for t in itertools.product(toks, repeat=n)]
+    # brackets whose ranges are all reversed / out of reach (an exclusive one then means "anything"), alone and inside other constructs
+    for rng in ('z-a', 'b-a', '9-0', 'z-a9-0', '\\\\-a', 'b-\\!'):
+        for neg in ('!', '^', ''):
+            b = '[' + neg + rng + ']'
+            strings += [b, 'f' + b + 'le', b + b, '*(a|' + b + ')', '!(' + b + ')', b + '/' + b, '**/' + b, b + '*', '[' + neg + rng + 'a]', '[' + neg + 'a' + rng + ']']
     strings = list(dict.fromkeys(strings))
     base = [W.EXTMATCH | W.FORCEUNIX, W.EXTMATCH | W.GLOBSTAR | W.BRACE | W.SPLIT | W.NEGATE | W.FORCEUNIX, W.EXTMATCH | W.FORCEWIN | W.GLOBSTAR | W.DOTMATCH,
             W.NEGATE | W.MINUSNEGATE | W.NEGATEALL | W.EXTMATCH | W.MATCHBASE | W.NODOTDIR | W.GLOBSTARLONG | W.FORCEUNIX, W.FORCEUNIX | W.IGNORECASE | W.GLOBTILDE | W.NODIR]
